@@ -600,8 +600,8 @@ class RZILTransformer(Transformer):
             assign.set_src(
                 ArithmeticOp(
                     f"op_MOD",
-                    assign.dest,
-                    assign.src,
+                    self.promotion_cast(assign.dest),
+                    self.promotion_cast(assign.src),
                     ArithmeticType.MOD,
                 )
             )
@@ -684,7 +684,6 @@ class RZILTransformer(Transformer):
             src: Pure = items[2]
         name = f"op_{op_type.name}"
         if op_type not in [
-            AssignmentType.ASSIGN_MOD,
             AssignmentType.ASSIGN_RIGHT,
             AssignmentType.ASSIGN_LEFT,
         ]:
@@ -708,11 +707,9 @@ class RZILTransformer(Transformer):
         b = items[2]
         op_type = ArithmeticType(items[1])
         name = f"op_{op_type.name}"
-        if op_type != ArithmeticType.MOD:
-            # Modular operations don't need matching types.
-            a = self.promotion_cast(a)
-            b = self.promotion_cast(b)
-            a, b = self.cast_operands(a=a, b=b, immutable_a=False)
+        a = self.promotion_cast(a)
+        b = self.promotion_cast(b)
+        a, b = self.cast_operands(a=a, b=b, immutable_a=False)
         return self.add_op(ArithmeticOp(name, a, b, op_type))
 
     def multiplicative_expr(self, items):
@@ -725,11 +722,9 @@ class RZILTransformer(Transformer):
         b = items[2]
         op_type = ArithmeticType(items[1])
         name = f"op_{op_type.name}"
-        if op_type != ArithmeticType.MOD:
-            # Modular operations don't need matching types.
-            a = self.promotion_cast(a)
-            b = self.promotion_cast(b)
-            a, b = self.cast_operands(a=a, b=b, immutable_a=False)
+        a = self.promotion_cast(a)
+        b = self.promotion_cast(b)
+        a, b = self.cast_operands(a=a, b=b, immutable_a=False)
         v = ArithmeticOp(name, a, b, op_type)
         return self.add_op(v)
 
